@@ -323,8 +323,8 @@ func cmdExts() {
 		for _, o := range res.Q.obligs {
 			if o.Status != "proved" {
 				bad++
-				if first == "" {
-					first = o.Name + ": " + o.Comment
+				if first == "" || os.Getenv("GOVC_EXTS_ALL") != "" {
+					first += "\n      " + o.Name + ": " + o.Comment + " [" + o.Status + "]"
 				}
 			}
 		}
